@@ -8,7 +8,7 @@ NAMES="$@"
 [ -z "$NAMES" ] && NAMES=$(ls seeded)
 mkdir -p .build/seed-regress
 for n in $NAMES; do
-  d=seeded/$n
+  d=/verif/seeded/$n
   patch=$d/patch.diff
   [ -f $d/patch_ported.diff ] && patch=$d/patch_ported.diff
   prop=$(python3 -c "import json;print(json.load(open('$d/meta.json'))['property'])")
